@@ -8,10 +8,13 @@ import (
 	"context"
 	"encoding/hex"
 	"fmt"
+	"hash/fnv"
 	"sort"
 	"strconv"
 	"strings"
+	"time"
 
+	"cosmossdk.io/core/header"
 	"cosmossdk.io/math"
 	abci "github.com/cometbft/cometbft/abci/types"
 	"github.com/cosmos/btcutil/base58"
@@ -869,8 +872,31 @@ func (s *Session) snapshot() map[string]string {
 	return m
 }
 
+// vary the block header per op: no property lets a result depend on block height, block time or chain id beyond the
+// stored state, and the model ignores them, so any such dependence shows up as a disagreement.  The choice is a function
+// of the op line itself (FNV hash), so it is stable under shrinking and identical across replays.
+var headerHeights = []int64{0, 1, 2, 100, 999, 1000, 1 << 20, 1<<31 - 1, 1 << 31, 1 << 32, 1<<62 + 1, 1<<63 - 1}
+var headerTimes = []int64{0, 1, 86399, 86400, 1700000000, 1767225600, 2000000000, 253402300799}
+
+func (s *Session) varyHeader(op Op) {
+	if s.w == nil {
+		return
+	}
+	h := fnv.New64a()
+	h.Write([]byte(op.String()))
+	x := h.Sum64()
+	height := headerHeights[x%uint64(len(headerHeights))]
+	t := time.Unix(headerTimes[(x>>16)%uint64(len(headerTimes))], int64((x>>32)%1000)*1000000).UTC()
+	chain := []string{"", "noble-1", "grand-1", "test"}[(x>>48)%4]
+	s.w.ctx = s.w.ctx.WithBlockHeight(height).WithBlockTime(t).WithChainID(chain).
+		WithHeaderInfo(header.Info{Height: height, Time: t, ChainID: chain})
+}
+
 func (s *Session) Exec(op Op) (line string) {
 	kv := op.KV
+	if op.Kind != "config" {
+		s.varyHeader(op)
+	}
 	switch op.Kind {
 	case "config":
 		s.w = NewWorld(kv.str("mintingDenom"))
